@@ -30,6 +30,20 @@ Theorem C23_builtin_matches : forall oifs raw t inp,
 Proof. exact read_builtin_spec. Qed.
 Print Assumptions C23_builtin_matches.
 
+(* one expand.Config (one Runner) used for a sequence of reads while IFS changes in between (set,
+   unset, emptied): every read splits by the IFS of its own environment, whatever an earlier call
+   left in the Config; with C23_read_matches each one is the bash/POSIX read *)
+Theorem C23_config_reuse : forall calls prev,
+  read_seq prev calls =
+  map (fun c => match c with (oifs, line, n, raw) => read_fields oifs line n raw end) calls.
+Proof. exact read_seq_independent. Qed.
+Print Assumptions C23_config_reuse.
+
+Example C23_ex_seq : (* IFS=: read a b <<< 'x:y z'; unset IFS; read a b <<< 'x:y z' *)
+  read_seq [] [(Some [58], [120;58;121;32;122], 2%Z, false); (None, [120;58;121;32;122], 2%Z, false)]
+  = [Ok [[120];[121;32;122]]; Ok [[120;58;121];[122]]].
+Proof. vm_compute. reflexivity. Qed.
+
 (* IFS=: read a b c <<< 'x::y:z:'  gives  x '' y:z: ;  IFS=: read a <<< 'x:' gives x;
    read a b <<< 'a\ b c\ ' keeps the escaped blanks; spec and model agree on them *)
 Example C23_ex_rest :
